@@ -126,14 +126,256 @@ def t16_comp(run, fx):
                      "from the enclosing composite takes part", c.loc(t))
 
 
+def _leaf_call_block(term, suffix):
+    for x in sym.walk(term):
+        if x[0] == "call" and (x[1] or "").endswith(suffix):
+            return x[3]
+    return None
+
+
+def t16_mat(run, fx):
+    rule = "T16-MAT"
+    run.rule(rule, "the 2x2 transform of a component: WE_HAVE_A_TWO_BY_TWO stores xscale, scale01, scale10, yscale in that order and the specification "
+                   "transforms a point to (xscale*x + scale10*y, scale01*x + yscale*y). The reader's array positions are mapped to file order (order of the "
+                   "ReadCtxt::read calls by dominance) and the four arguments of Matrix2x2F::row_major(m00, m01, m10, m11) in the conversion must be the "
+                   "file items 0, 2, 1, 3")
+    rd = fx.body("<tables::glyf::CompositeGlyphComponent as binary::read::ReadBinaryDep>::read_dep")
+    cv = [b for b in fx.bodies if b.kind != "Closure" and "From<tables::glyf::CompositeGlyphScale> for pathfinder_geometry::transform2d::Matrix2x2F" in b.root]
+    if rd is None or not cv:
+        return run.anchor_missing(rule, "CompositeGlyphComponent::read_dep / From<CompositeGlyphScale> for Matrix2x2F")
+    # reader: (i, j) -> file item
+    prov = sym.Prov(rd)
+    pos = {}
+    for bi in range(len(rd.blocks)):
+        for st in rd.stmts(bi):
+            rv = st.get("rv") or {}
+            if st.get("k") == "assign" and rv.get("k") == "agg" and rv.get("adt") == "tables::glyf::CompositeGlyphScale" and rv.get("vname") == "Matrix":
+                t = sym.strip(prov.op(rv["fields"][0]))
+                if t[0] == "agg" and t[1] == "array" and len(t[3]) == 2:
+                    for i, row in enumerate(t[3]):
+                        row = sym.strip(row)
+                        if row[0] == "agg" and row[1] == "array" and len(row[3]) == 2:
+                            for j, leaf in enumerate(row[3]):
+                                pos[(i, j)] = _leaf_call_block(leaf, "ReadCtxt::<'a>::read")
+    if len(pos) != 4 or any(v is None for v in pos.values()) or len(set(pos.values())) != 4:
+        return run.anchor_missing(rule, "CompositeGlyphScale::Matrix built from four distinct ReadCtxt::read results in read_dep")
+    blocks = sorted(pos.values(), key=lambda k: sum(1 for o in pos.values() if o != k and rd.dominates(o, k)))
+    for a, c in zip(blocks, blocks[1:]):
+        if not rd.dominates(a, c):
+            return run.anchor_missing(rule, "the four reads of the 2x2 transform are not totally ordered by dominance")
+    item = {ij: blocks.index(k) for ij, k in pos.items()}
+    run.ok(rule, "reader: matrix[i][j] holds file item %s" % sorted((ij, n) for ij, n in item.items()))
+    # conversion: row_major argument k <- matrix[i][j]
+    b = cv[0]
+    cprov = sym.Prov(b)
+    rm = [(bi, t) for bi, t in b.calls() if (t["callee"].get("path") or "").endswith("Matrix2x2F::row_major")]
+    if len(rm) != 1:
+        return run.anchor_missing(rule, "exactly one Matrix2x2F::row_major call in the conversion of CompositeGlyphScale::Matrix")
+    bi, t = rm[0]
+    got = []
+    for a in t["args"]:
+        ij = None
+        for x in sym.walk(cprov.op(a)):
+            if x[0] == "index" and x[2][0] == "c" and sym.strip(x[1])[0] == "index" and sym.strip(x[1])[2][0] == "c":
+                inner = sym.strip(x[1])
+                if any(y[0] == "variant" and y[2] == "Matrix" for y in sym.walk(inner[1])):
+                    ij = (inner[2][1], x[2][1])
+                    break
+        got.append(item.get(ij))
+    want = [0, 2, 1, 3]
+    names = ["xscale", "scale01", "scale10", "yscale"]
+    if got == want:
+        run.ok(rule, "row_major(m00, m01, m10, m11) receives xscale, scale10, scale01, yscale: x' = xscale*x + scale10*y, y' = scale01*x + yscale*y")
+    else:
+        run.fail(rule, "two-by-two:row_major", "Matrix2x2F::row_major(m00, m01, m10, m11) receives the file items %s, the specification's matrix is (xscale, scale10, scale01, "
+                 "yscale): a sheared or rotated component is transformed by a different matrix" % [names[g] if g is not None else "?" for g in got], b.loc(t))
+
+
+def t16_offs(run, fx, floors):
+    rule = "T16-OFFS"
+    run.rule(rule, "sibling agreement on SCALED_COMPONENT_OFFSET: every function that places a component from its `scale` and its `argument1`/`argument2` "
+                   "offset into a Transform2F consults CompositeGlyphFlag::component_offsets() and branches on the result (outline visitor and calculated "
+                   "bounding box must place a component identically)")
+    sites = []
+    for b in fx.bodies:
+        if b.kind == "Closure" or not any("Transform2F" in (l.get("ty") or "") for l in b.locals):
+            continue
+        fields = set()
+        for bi in range(len(b.blocks)):
+            for st in b.stmts(bi):
+                txt = str(st)
+                if "CompositeGlyphComponent" in txt:
+                    for f in ("scale", "argument1", "argument2"):
+                        if "'%s'" % f in txt:
+                            fields.add(f)
+        if "scale" in fields and ("argument1" in fields or "argument2" in fields):
+            sites.append(b)
+    want = 2 if run.config in (None, "prince", "default") else 1
+    if floors and len(sites) < want:
+        run.anchor_missing(rule, "%d functions that place a component (found %d)" % (want, len(sites)))
+    for b in sites:
+        calls = [(bi, t) for bi, t in b.calls() if (t["callee"].get("path") or "").endswith("CompositeGlyphFlag::component_offsets")]
+        switched = False
+        for bi, t in calls:
+            dest = (t.get("dest") or {}).get("l")
+            for bj in range(len(b.blocks)):
+                for st in b.stmts(bj):
+                    rv = st.get("rv") or {}
+                    if rv.get("k") == "discr" and (rv.get("p") or {}).get("l") == dest:
+                        switched = True
+        if calls and switched:
+            run.ok(rule, "%s branches on component_offsets()" % b.root)
+        else:
+            run.fail(rule, "component-offsets:%s" % b.root.split("::")[-1], "%s builds a component's transform from its scale and offset without consulting "
+                     "CompositeGlyphFlag::component_offsets(): with SCALED_COMPONENT_OFFSET the offset must be scaled too, as its sibling does" % b.root,
+                     "%s:%s" % (b.file, b.line))
+
+
+MUL_TV = "<pathfinder_geometry::transform2d::Transform2F as std::ops::Mul<pathfinder_geometry::vector::Vector2F>>::mul"
+
+
+def _has_call(term, suffix):
+    return any(x[0] == "call" and (x[1] or "").endswith(suffix) for x in sym.walk(term))
+
+
+def t16_origin(run, fx):
+    rule = "T16-ORIGIN"
+    run.rule(rule, "where a contour starts (decision table of Contour::calculate_origin, read from the returned tuples): first point on curve -> start at it, "
+                   "walk points 1..len; first off and last on curve -> start at the last point, walk 0..len-1; both off curve -> start at their mid-point "
+                   "lerp(first, last, 0.5), walk 0..len. In Points::next the look-ahead past the last point wraps modulo the contour length")
+    co = [b for b in fx.bodies if b.kind != "Closure" and b.root.endswith("Contour::<'points>::calculate_origin")]
+    nx = [b for b in fx.bodies if b.kind != "Closure" and "contour::Points<" in b.root and b.root.endswith("::next")]
+    if not co or not nx:
+        return run.anchor_missing(rule, "Contour::calculate_origin / Points::next")
+    b = co[0]
+    prov = sym.Prov(b)
+    rows = {}
+    for bi in range(len(b.blocks)):
+        if not b.reachable(bi):
+            continue
+        for st in b.stmts(bi):
+            rv = st.get("rv") or {}
+            if st.get("k") == "assign" and st["p"]["l"] == 0 and not st["p"]["p"] and rv.get("k") == "agg" and len(rv.get("fields", [])) == 3:
+                pt, start, until = (sym.strip(prov.op(f)) for f in rv["fields"])
+                if pt[0] == "field" and pt[1][0] == "variant" and pt[1][2] == "OnCurve" and _has_call(pt, "::first") and not _has_call(pt, "::last"):
+                    kind = "first-on"
+                elif pt[0] == "field" and pt[1][0] == "variant" and pt[1][2] == "OnCurve" and _has_call(pt, "::last") and not _has_call(pt, "::first"):
+                    kind = "last-on"
+                elif pt[0] == "call" and (pt[1] or "").endswith("Vector2F::lerp") and len(pt[2]) == 3:
+                    a0, a1, a2 = (sym.strip(x) for x in pt[2])
+                    ok = (_has_call(a0, "::first") != _has_call(a1, "::first")) and (_has_call(a0, "::last") != _has_call(a1, "::last")) \
+                        and all(x[0] == "field" and x[1][0] == "variant" and x[1][2] == "Control" for x in (a0, a1)) and a2[0] == "c" and a2[3] == "0.5f32"
+                    kind = "mid" if ok else "other:" + sym.show(pt)[:60]
+                else:
+                    kind = "other:" + sym.show(pt)[:60]
+                sv = start[1] if start[0] == "c" else None
+                if until[0] == "call" and (until[1] or "").endswith("Contour::<'points>::len"):
+                    uv = "len"
+                elif until[0] == "bin" and until[1] == "Sub" and sym.strip(until[2])[0] == "call" and (sym.strip(until[2])[1] or "").endswith("Contour::<'points>::len") \
+                        and sym.strip(until[3])[0] == "c" and sym.strip(until[3])[1] == 1:
+                    uv = "len-1"
+                else:
+                    uv = sym.show(until)[:40]
+                rows.setdefault(kind, []).append((sv, uv, b.loc(st)))
+    want = {"first-on": (1, "len"), "last-on": (0, "len-1"), "mid": (0, "len")}
+    for kind, (sv, uv) in want.items():
+        got = rows.pop(kind, [])
+        if len(got) != 1:
+            run.fail(rule, "origin:%s" % kind, "calculate_origin has %d rows for the case '%s' (expected one)" % (len(got), kind), "%s:%s" % (b.file, b.line))
+        elif got[0][:2] != (sv, uv):
+            run.fail(rule, "origin:%s" % kind, "calculate_origin, case '%s': walks from %s until %s; the contour semantics need from %s until %s (a point is lost or "
+                     "visited twice)" % (kind, got[0][0], got[0][1], sv, uv), got[0][2])
+        else:
+            run.ok(rule, "case %s: start %d, until %s" % (kind, sv, uv))
+    for kind, got in rows.items():
+        run.fail(rule, "origin:extra", "calculate_origin returns a start point that is neither the first/last on-curve point nor lerp(first, last, 0.5): %s" % kind, got[0][2])
+    # wrap modulus
+    n = nx[0]
+    nprov = sym.Prov(n)
+    rems = []
+    for bi in range(len(n.blocks)):
+        if not n.reachable(bi):
+            continue
+        for st in n.stmts(bi):
+            rv = st.get("rv") or {}
+            if st.get("k") == "assign" and rv.get("k") == "bin" and rv.get("bop") == "Rem":
+                rems.append((bi, st, sym.strip(nprov.op(rv["b"]))))
+    if not rems:
+        run.anchor_missing(rule, "wrap-around `%` in Points::next")
+    for bi, st, d in rems:
+        uses_until = any(x[0] == "field" and x[2] == "until" for x in sym.walk(d))
+        is_len = _has_call(d, "Contour::<'points>::len") or any(x[0] == "field" and x[2] == "points_and_flags" for x in sym.walk(d))
+        if is_len and not uses_until:
+            run.ok(rule, "Points::next wraps modulo the contour length")
+        else:
+            run.fail(rule, "origin:wrap", "Points::next wraps its look-ahead modulo %s, not the contour length: the implied mid-point across the closing edge is "
+                     "taken with the wrong neighbour" % sym.show(d)[:60], n.loc(st))
+
+
+def t16_sub(run, fx):
+    rule = "T16-SUB"
+    run.rule(rule, "visit_simple_glyph_outline: every iteration of the contour loop passes through move_to and through close (each contour is one closed "
+                   "sub-path), and every point handed to the sink is `transform * p` with the transform applied exactly once")
+    vs = [b for b in fx.bodies if b.kind != "Closure" and b.root.endswith("::visit_simple_glyph_outline")]
+    if not vs:
+        return run.anchor_missing(rule, "visit_simple_glyph_outline")
+    for b in vs[:1]:
+        prov = sym.Prov(b)
+        sink = {}
+        for bi, t in b.calls():
+            p = t["callee"].get("path") or ""
+            for m in ("move_to", "line_to", "quadratic_curve_to", "close"):
+                if p.endswith("OutlineSink::" + m):
+                    sink.setdefault(m, []).append((bi, t))
+        if not sink.get("move_to") or not sink.get("close"):
+            return run.anchor_missing(rule, "move_to and close calls in visit_simple_glyph_outline")
+        mv = sink["move_to"][0][0]
+        # the contour loop: the innermost dominator of the move_to block that is reachable again from it
+        back = b.reach_from(mv)
+        hdr = None
+        d = mv
+        idom = b.idom()
+        while d != 0:
+            d = idom[d]
+            if d in back and any(d in b.succs(x) for x in back):
+                hdr = d
+                break
+        if hdr is None:
+            return run.anchor_missing(rule, "loop around the move_to call")
+        for m in ("move_to", "close"):
+            avoid = frozenset(bi for bi, _ in sink[m])
+            skipping = any(hdr in b.reach_from(s0, avoid) for s0 in b.succs(hdr) if s0 not in avoid)
+            if skipping:
+                run.fail(rule, "subpath:%s" % m, "visit_simple_glyph_outline: some iteration of the contour loop does not call %s - a contour is dropped or left open" % m,
+                         "%s:%s" % (b.file, b.line))
+            else:
+                run.ok(rule, "every contour iteration calls %s" % m)
+        for m in ("move_to", "line_to", "quadratic_curve_to"):
+            for bi, t in sink.get(m, []):
+                for k, a in enumerate(t["args"][1:]):
+                    term = sym.strip(prov.op(a))
+                    ok = term[0] == "call" and term[1] == MUL_TV and len(term[2]) == 2 \
+                        and any(x[0] == "arg" and x[2] == "transform" for x in sym.walk(term[2][0])) \
+                        and not any((x[0] == "arg" and x[2] == "transform") or (x[0] == "call" and x[1] == MUL_TV) for x in sym.walk(term[2][1]))
+                    if ok:
+                        run.ok(rule, "%s argument %d is transform * p" % (m, k))
+                    else:
+                        run.fail(rule, "subpath:transform:%s" % m, "visit_simple_glyph_outline hands %s a point that is not `transform * p` with the transform applied "
+                                 "exactly once: %s" % (m, sym.show(term)[:90]), b.loc(t))
+
+
 def check(run, fx, tier, floors=True):
     recursion.run_rule(run, fx, "C01-a", lambda f: any("tables::glyf::outline" in p for p in f.local_paths), floors_n=1 if floors else None)
     rules_C01.rule_panics(run, fx, "C01-b", lambda b: b.file in FILES, floors, floor_n=5)
     if floors or fx.const("tables::glyf::SimpleGlyphFlag::ON_CURVE_POINT") is not None:
         t16_flags(run, fx)
         t16_pred(run, fx)
+        t16_mat(run, fx)
+        t16_offs(run, fx, floors)
     # the glyf outline visitor only exists with the `outline` feature: fail closed on the superset configuration, skip where it is compiled out
     if (floors and run.config in (None, "prince", "default")) or any(b.root.endswith("::visit_composite_glyph_outline") for b in fx.bodies):
         t16_comp(run, fx)
+        t16_origin(run, fx)
+        t16_sub(run, fx)
     indexing.rule_index(run, fx, "C16-i", floors, select=lambda b: b.file in FILES, floor_n=10)
     overflow.rule_overflow(run, fx, "C16-o", floors, select=lambda b: b.file in FILES, floor_n=10)
